@@ -80,6 +80,9 @@ pub struct Profile {
     /// (1 = one level of nesting, 2 = a combinator inside a combinator inside
     /// the top-level one)
     pub max_depth: usize,
+    /// probability of a storm case (wakers invoked concurrently from helper
+    /// threads instead of by the scripted schedule)
+    pub p_storm: u32,
 }
 
 pub const ALL_FAMILIES: &[(Family, u32)] = &[
@@ -118,6 +121,7 @@ impl Profile {
             p_post: 0,
             p_variant: 26,
             max_depth: 2,
+            p_storm: 0,
         }
     }
     pub fn only(mut self, fams: &[Family]) -> Profile {
@@ -393,6 +397,7 @@ pub fn gen_case(bytes: &[u8], p: &Profile) -> Case {
     let no_drain = c.coin(p.p_nodrain);
     let drain: Vec<u8> = (0..24).map(|_| c.byte()).collect();
     let post_polls = if c.coin(p.p_post) { 1 + c.choice(2) as u8 } else { 0 };
+    let storm = !p.fair && c.coin(p.p_storm);
     Case {
         root,
         schedule,
@@ -400,5 +405,6 @@ pub fn gen_case(bytes: &[u8], p: &Profile) -> Case {
         no_drain,
         fair_polls,
         post_polls,
+        storm,
     }
 }
